@@ -4,8 +4,15 @@ import (
 	"fmt"
 	"sort"
 	"strings"
+	"sync"
+	"time"
 
+	mqtt "github.com/mochi-mqtt/server/v2"
 	"github.com/mochi-mqtt/server/v2/packets"
+	"github.com/mochi-mqtt/server/v2/system"
+
+	"verif/harness/eng"
+	rc "verif/harness/refcodec"
 )
 
 // opRestart shuts the broker down in an orderly way and starts a new one on the same store
@@ -278,3 +285,307 @@ func (s *Sim) restoredCheck() {
 	}
 }
 
+
+// ---------------------------------------------------------------- crash points (C21)
+
+// CrashProxy wraps a storage hook: the first Limit storage writes are forwarded, every later one is
+// swallowed (the process "died" before it reached the store). Multi-filter subscribe/unsubscribe
+// events are split into one write per filter. Reads are always forwarded.
+type CrashProxy struct {
+	mqtt.Hook
+	Limit   int
+	mu      sync.Mutex
+	n       int
+	crashed bool
+	Log     []string // kind of every write event seen (forwarded or not)
+	OnCrash func()   // called once, when the first write is swallowed
+}
+
+func (p *CrashProxy) pass(kind string) bool {
+	p.mu.Lock()
+	defer p.mu.Unlock()
+	p.Log = append(p.Log, kind)
+	if p.crashed {
+		return false
+	}
+	if p.Limit >= 0 && p.n >= p.Limit {
+		p.crashed = true
+		if p.OnCrash != nil {
+			p.OnCrash()
+		}
+		return false
+	}
+	p.n++
+	return true
+}
+
+func (p *CrashProxy) Crashed() bool { p.mu.Lock(); defer p.mu.Unlock(); return p.crashed }
+func (p *CrashProxy) Writes() int   { p.mu.Lock(); defer p.mu.Unlock(); return len(p.Log) }
+
+func (p *CrashProxy) OnSessionEstablished(cl *mqtt.Client, pk packets.Packet) {
+	if p.pass("session-established") {
+		p.Hook.OnSessionEstablished(cl, pk)
+	}
+}
+func (p *CrashProxy) OnDisconnect(cl *mqtt.Client, err error, expire bool) {
+	if p.pass("disconnect") {
+		p.Hook.OnDisconnect(cl, err, expire)
+	}
+}
+func (p *CrashProxy) OnSubscribed(cl *mqtt.Client, pk packets.Packet, codes []byte) {
+	for i := range pk.Filters {
+		if p.pass("subscribed") {
+			one := pk
+			one.Filters = pk.Filters[i : i+1]
+			p.Hook.OnSubscribed(cl, one, codes[i:i+1])
+		}
+	}
+}
+func (p *CrashProxy) OnUnsubscribed(cl *mqtt.Client, pk packets.Packet) {
+	for i := range pk.Filters {
+		if p.pass("unsubscribed") {
+			one := pk
+			one.Filters = pk.Filters[i : i+1]
+			p.Hook.OnUnsubscribed(cl, one)
+		}
+	}
+}
+func (p *CrashProxy) OnRetainMessage(cl *mqtt.Client, pk packets.Packet, r int64) {
+	if p.pass("retain") {
+		p.Hook.OnRetainMessage(cl, pk, r)
+	}
+}
+func (p *CrashProxy) OnQosPublish(cl *mqtt.Client, pk packets.Packet, sent int64, resends int) {
+	if p.pass("qos-publish") {
+		p.Hook.OnQosPublish(cl, pk, sent, resends)
+	}
+}
+func (p *CrashProxy) OnQosComplete(cl *mqtt.Client, pk packets.Packet) {
+	if p.pass("qos-complete") {
+		p.Hook.OnQosComplete(cl, pk)
+	}
+}
+func (p *CrashProxy) OnQosDropped(cl *mqtt.Client, pk packets.Packet) {
+	if p.pass("qos-dropped") {
+		p.Hook.OnQosDropped(cl, pk)
+	}
+}
+func (p *CrashProxy) OnClientExpired(cl *mqtt.Client) {
+	if p.pass("client-expired") {
+		p.Hook.OnClientExpired(cl)
+	}
+}
+func (p *CrashProxy) OnRetainedExpired(topic string) {
+	if p.pass("retained-expired") {
+		p.Hook.OnRetainedExpired(topic)
+	}
+}
+func (p *CrashProxy) OnWillSent(cl *mqtt.Client, pk packets.Packet) {
+	if p.pass("will-sent") {
+		p.Hook.OnWillSent(cl, pk)
+	}
+}
+func (p *CrashProxy) OnSysInfoTick(info *system.Info) {
+	if !p.Crashed() {
+		p.Hook.OnSysInfoTick(info)
+	}
+}
+
+// CrashRestart models the death of the broker process at the crash point reached by the proxy and a
+// restart on the store as it is: the dying broker's remaining writes are swallowed, a new broker with a
+// fresh, unwrapped hook loads the store, and what it holds is compared with what had been acknowledged.
+// prev/cur are the model before and after the step during which the crash happened.
+func (s *Sim) CrashRestart(probeTopics []string) {
+	m := s.M
+	prev, cur := s.PrevSnap, s.CurSnap
+	for _, sl := range s.Slots {
+		if sl.connected && sl.Conn != nil && !sl.Conn.Done() {
+			cl, ok := s.B.S.Clients.Get(sl.ClientID)
+			if !ok || cl.Net.Remote != sl.Conn.Name {
+				who := "nobody"
+				if ok {
+					who = cl.Net.Remote
+				}
+				m.flag("C14/live-connection-not-registered", map[string]string{"registered": fmt.Sprint(ok)}, "slot %d (%s, %s) holds an open, served connection but the broker's client map has %s under that id", sl.Idx, sl.ClientID, sl.Conn.Name, who)
+				sl.Conn.MC.CloseByClient() // otherwise Close() below waits for it forever
+			}
+		}
+	}
+	// what the client of the crashing step had been told before the first write was lost
+	ackedInStep := false
+	crashSeq := s.CrashSeq.Load()
+	if op := s.curOp; op != nil && crashSeq > 0 && op.C < len(s.Slots) && s.Slots[op.C].Conn != nil {
+		for _, rp := range s.Slots[op.C].Conn.Inbox {
+			if rp.Seq <= s.stepStartSeq || rp.Seq >= crashSeq {
+				continue
+			}
+			switch rp.P.Type {
+			case rc.PUBACK, rc.PUBREC:
+				if rp.P.Reason < 0x80 {
+					ackedInStep = true
+				}
+			case rc.SUBACK:
+				ackedInStep = true
+			}
+		}
+	}
+	stepMsg := fmt.Sprintf("m%d", s.nmsg)
+	_ = s.B.S.Close() // writes are swallowed by the proxy; the database itself is closed cleanly
+	s.B.Shutdown()
+	s.Opt.WrapStore = nil
+	s.B = s.makeBroker()
+	if err := s.B.S.VerifReadStore(); err != nil {
+		m.flag("C21/read-store-error", nil, "loading the store after the crash failed: %v", err)
+		return
+	}
+	for _, sl := range s.Slots {
+		sl.Conn, sl.Exp, sl.connected = nil, nil, false
+	}
+	if prev == nil || cur == nil {
+		return
+	}
+	srv := s.B.S
+	idx := srv.VerifIndexSubscriptions()
+	ids := map[string]bool{}
+	for id := range prev.Sessions {
+		ids[id] = true
+	}
+	for id := range cur.Sessions {
+		ids[id] = true
+	}
+	sorted := make([]string, 0, len(ids))
+	for id := range ids {
+		sorted = append(sorted, id)
+	}
+	sort.Strings(sorted)
+	var ended []string
+	for _, id := range sorted {
+		p, c := prev.Sessions[id], cur.Sessions[id]
+		_, hadP := prev.Sessions[id]
+		_, hadC := cur.Sessions[id]
+		if hadP && hadC && p.Persistent && c.Persistent {
+			m.count("crash_sessions_checked")
+			got := map[string]bool{}
+			for _, f := range idx[id] {
+				got[f] = true
+			}
+			for f := range p.Subs {
+				if c.Subs[f] && !got[f] {
+					m.flag("C21/acknowledged-state-lost", map[string]string{"what": "subscription", "key_collision": fmt.Sprint(s.keyCollision(id, f) || s.anyCollisionRisk(id))},
+						"crash during step %d: subscription %q of session %q was acknowledged before the step and not removed in it, but is missing after the restart", s.StoppedAt, f, id)
+				} else if c.Subs[f] {
+					m.count("crash_subscriptions_survived")
+				}
+			}
+			gotIF := map[string]bool{}
+			if cl, ok := srv.Clients.Get(id); ok {
+				for _, pk := range cl.VerifInflight() {
+					gotIF[msgIDOf(pk.Payload)] = true
+				}
+				// a PUBREL record has no payload: accept it for any owed message with that state
+				for _, pk := range cl.VerifInflight() {
+					if pk.FixedHeader.Type == packets.Pubrel {
+						gotIF["*pubrel"] = true
+					}
+				}
+			}
+			for mid := range p.Out {
+				if !c.Out[mid] {
+					continue
+				}
+				if gotIF[mid] || gotIF["*pubrel"] {
+					m.count("crash_inflight_survived")
+					continue
+				}
+				m.flag("C21/acknowledged-state-lost", map[string]string{"what": "in-flight message", "session_connected": fmt.Sprint(c.Connected)},
+					"crash during step %d: message %s was owed to session %q before and after the step, but is not among its in-flight messages after the restart", s.StoppedAt, mid, id)
+			}
+		}
+		endedP := !hadP || !p.Persistent
+		endedC := !hadC || !c.Persistent
+		if endedP && endedC {
+			ended = append(ended, id)
+		}
+	}
+	for topic, mid := range prev.Retained {
+		if cur.Retained[topic] != mid {
+			continue
+		}
+		pk, ok := srv.Topics.Retained.Get(topic)
+		if !ok || msgIDOf(pk.Payload) != mid {
+			m.flag("C21/acknowledged-state-lost", map[string]string{"what": "retained message"}, "crash during step %d: retained message %s on %q was acknowledged before the step and not replaced in it, but after the restart the topic holds %q", s.StoppedAt, mid, topic, msgIDOf(pk.Payload))
+		} else {
+			m.count("crash_retained_survived")
+		}
+	}
+	// finer than step granularity: the crashing step's own request was acknowledged before the first lost write
+	if op := s.curOp; ackedInStep && op != nil {
+		m.count("crash_acknowledged_within_step")
+		a := map[string]string{"acked_in_crashing_step": "true"}
+		switch op.Kind {
+		case "publish":
+			if op.Retain && !op.Empty && cur.Retained[op.Topic] == stepMsg {
+				a["what"] = "retained message"
+				if pk, ok := srv.Topics.Retained.Get(op.Topic); !ok || msgIDOf(pk.Payload) != stepMsg {
+					m.flag("C21/acknowledged-state-lost", a, "crash during step %d: the retained publish %s on %q had been acknowledged to its publisher before the first storage write was lost, but after the restart the topic holds %q", s.StoppedAt, stepMsg, op.Topic, msgIDOf(pk.Payload))
+				}
+			}
+			for id, c := range cur.Sessions {
+				if !c.Persistent || !c.Out[stepMsg] {
+					continue
+				}
+				found := false
+				if cl, ok := srv.Clients.Get(id); ok {
+					for _, pk := range cl.VerifInflight() {
+						if msgIDOf(pk.Payload) == stepMsg {
+							found = true
+						}
+					}
+				}
+				if !found {
+					b := map[string]string{"acked_in_crashing_step": "true", "what": "in-flight message"}
+					m.flag("C21/acknowledged-state-lost", b, "crash during step %d: publish %s had been acknowledged to its publisher before the first storage write was lost, but the copy owed to session %q is missing after the restart", s.StoppedAt, stepMsg, id)
+				}
+			}
+		case "subscribe":
+			id := s.Slots[op.C].ClientID
+			if c, ok := cur.Sessions[id]; ok && c.Persistent {
+				got := map[string]bool{}
+				for _, f := range idx[id] {
+					got[f] = true
+				}
+				for _, f := range op.Filters {
+					if c.Subs[f.Filter] && !got[f.Filter] {
+						a["what"] = "subscription"
+						m.flag("C21/acknowledged-state-lost", a, "crash during step %d: the SUBACK for %q (session %q) had been received before the first storage write was lost, but the subscription is missing after the restart", s.StoppedAt, f.Filter, id)
+					}
+				}
+			}
+		}
+	}
+	// resurrection probe: connections with clean start 1 on ids whose session had ended must receive nothing
+	var probes []*eng.Client
+	for _, id := range ended {
+		c := s.B.Attach()
+		c.Version = 5
+		c.Send(&rc.Packet{Type: rc.CONNECT, ProtoLevel: 5, ProtoName: "MQTT", ClientID: id, ConnectFlags: 2}, rc.FormAuto)
+		probes = append(probes, c)
+	}
+	pub := s.B.Attach()
+	pub.Version = 5
+	pub.Send(&rc.Packet{Type: rc.CONNECT, ProtoLevel: 5, ProtoName: "MQTT", ClientID: "crash-probe-publisher", ConnectFlags: 2}, rc.FormAuto)
+	s.B.Quiesce(10 * time.Second)
+	for _, t := range probeTopics {
+		pub.Send(&rc.Packet{Type: rc.PUBLISH, Version: 5, Topic: t, Payload: []byte("probe")}, rc.FormAuto)
+	}
+	s.B.Quiesce(10 * time.Second)
+	for i, c := range probes {
+		m.count("crash_clean_start_probes")
+		for _, rp := range c.Drain() {
+			if rp.P.Type == rc.PUBLISH {
+				m.flag("C21/resurrected-subscription", map[string]string{"what": "delivery-to-clean-start"}, "crash during step %d: a clean-start connection for %q, whose session had ended before the crash, received a message on %q after the restart (index holds %v for that id)", s.StoppedAt, ended[i], rp.P.Topic, idx[ended[i]])
+				break
+			}
+		}
+	}
+}
